@@ -113,3 +113,15 @@ package codegen
 //@       requires* required.flag: required == isReqSpec(ma.AttributeExpr, name)
 //@       modifies all
 //@   modifies all
+
+// ---- validation code: format constants (C01) -------------------------------------------------
+// The validation code emitted for Format(...) refers to a constant of the runtime package by name; the name
+// emitted for each of the fourteen design formats is the identifier the runtime package (pkg/validation.go)
+// declares with that value (the identifiers and their values are compared with the runtime package by the
+// assumption audit codegen-models), so the reference always resolves and selects the validator of that format.
+//@ func constant
+//@   params formatName
+//@   property C01
+//@   ensures* names.the.runtime.constant: (formatName == "date" ==> result == "goa.FormatDate") && (formatName == "date-time" ==> result == "goa.FormatDateTime") && (formatName == "uuid" ==> result == "goa.FormatUUID") && (formatName == "email" ==> result == "goa.FormatEmail") && (formatName == "hostname" ==> result == "goa.FormatHostname") && (formatName == "ipv4" ==> result == "goa.FormatIPv4") && (formatName == "ipv6" ==> result == "goa.FormatIPv6") && (formatName == "ip" ==> result == "goa.FormatIP") && (formatName == "uri" ==> result == "goa.FormatURI") && (formatName == "mac" ==> result == "goa.FormatMAC") && (formatName == "cidr" ==> result == "goa.FormatCIDR") && (formatName == "regexp" ==> result == "goa.FormatRegexp") && (formatName == "json" ==> result == "goa.FormatJSON") && (formatName == "rfc1123" ==> result == "goa.FormatRFC1123")
+//@   modifies* nothing
+//@   frameprop C01
